@@ -10,9 +10,34 @@ character option drawn too.  Inputs come from three streams per entry point:
 Lengths up to 4 KiB in the thorough tier (256, a few 1 KiB, in quick).
 Operations whose implementation is not modelled (dd.read, nc.vec, nc.seq, ct.parse) are
 compared by outcome class only (the model answers `?`)."""
-import random, itertools
+import random, itertools, os, sys, importlib.util
 
-UNMODELLED = ("dd.read", "nc.vec", "nc.seq", "ct.parse")
+UNMODELLED = ("nc.vec", "nc.seq", "ct.parse")        # dd.read: see compare()
+
+
+def _load_tool(name):
+    here = os.path.dirname(os.path.dirname(os.path.abspath(__file__)))
+    spec = importlib.util.spec_from_file_location(name, os.path.join(here, "tools", name + ".py"))
+    m = importlib.util.module_from_spec(spec)
+    spec.loader.exec_module(m)
+    return m
+
+
+# every literal the search-only readers compare their input with, collected from the current sources
+# of $VERIF_REPO on every run (tools/gen_c16_dict.py): a new argument name enters the grammar by itself
+try:
+    RD = _load_tool("gen_c16_dict").scan()
+except Exception as _e:          # the translator reports that itself (props/C16.json "translator")
+    RD = {}
+for _k, _v in (("dist_names", ["Gamma"]), ("dist_args", {}), ("dist_all_args", ["n"]), ("dist_numbered", ["dist"]), ("dist_item_chars", ["[", ";", "]"]),
+               ("vec_keys", ["from", "to", "step", "size"]), ("vec_scales", ["log"]), ("vec_prefixes", ["seq("]), ("formula_chars", ["+", "(", ")"]),
+               ("formula_funcs", ["exp"])):
+    RD.setdefault(_k, _v)
+    if not RD[_k]:
+        RD[_k] = _v
+READER_DICT = sorted(set([a + "=" for a in RD["dist_all_args"]] + [a + "1=" for a in RD["dist_numbered"]] + [d + "(" for d in RD["dist_names"]] +
+                         [k + "=" for k in RD["vec_keys"]] + ["scale=" + v for v in RD["vec_scales"]] + RD["vec_prefixes"] + [f + "(" for f in RD["formula_funcs"]] +
+                         RD["dist_item_chars"] + RD["formula_chars"]))
 
 
 def hx(s):
@@ -167,6 +192,9 @@ def g_tt(rng, tier):
         return "tt.%s %s" % (f, hx(pick(rng, tier, TEXT)))
     if f == "ws":
         return "tt.ws %s" % hx(chr(rng.choice([32, 9, 10, 11, 12, 13, 0, 65, 160, 133, 255, rng.randrange(256)])))
+    if f == "num" and rng.random() < 0.5:
+        dec, sci = rng.choice([(".", "e")] * 5 + [(".", "E"), (",", "e"), (".", "x")])
+        return "tt.num %s %s %s" % (hx(numeral(rng, dec, sci)), hx(dec), hx(sci))
     if f == "num":
         dec, sci = rng.choice([(".", "e")] * 6 + [(".", "E"), (",", "e"), (".", "x"), ("e", "."), (".", "."), ("-", "e"), ("0", "e"), (".", "-"), ("\x00", "e")])
         return "tt.num %s %s %s" % (hx(pick(rng, tier, NUMS, ["e", ".", "-", "+", "5"])), hx(dec), hx(sci))
@@ -186,8 +214,15 @@ def g_tt(rng, tier):
         # the output of this overload is quadratic in the input (an unclosed nest copies the text before
         # it once per opening character): inputs are kept to 1 KiB so that answers stay printable
         s = pick(rng, tier, NESTED + ["f(x) = <a> (b) c", "a(b)c(d)e", "x(y(z)w)v", "(a)", "((", "a)b(c"], [b, e])[:1024]
-        xb = [rng.choice(["x" + b, b + "y", "ab" + b + "c", b, "no", "", b + b, "zz" + b, "(a", "f("]) for _ in range(rng.choice([0, 0, 1, 1, 2, 3]))]
-        xe = [rng.choice(["x" + e, e + "y", "ab" + e + "c", e, "no", "", e + e, "a)", ")c"]) for _ in range(rng.choice([0, 0, 1, 1, 2]))]
+        def exc(m):
+            if rng.random() < 0.5:
+                n = rng.randint(1, 4); k = rng.randrange(n)
+                return "".join(rng.choice("abx") for _ in range(k)) + m + "".join(rng.choice("abx" + b + e) for _ in range(n - 1 - k))
+            return rng.choice(["x" + m, m + "y", "ab" + m + "c", m, "no", "", m + m, "zz" + m, "(a", "f(", "a)", ")c", "-->", "xyz)"])
+        xb = [exc(b) for _ in range(rng.choice([0, 0, 1, 1, 2, 3]))]
+        xe = [exc(e) for _ in range(rng.choice([0, 0, 1, 1, 2, 3]))]
+        if rng.random() < 0.3 and (xb or xe):          # the text contains an exception string
+            pos = rng.randint(0, min(len(s), 12)); s = (s[:pos] + rng.choice(xb + xe) + s[pos:])[:1024]
         return "tt.rmsub5 %s %s %s %d %s%d %s" % (hx(s), hx(b), hx(e), len(xb), "".join(hx(x) + " " for x in xb), len(xe), " ".join(hx(x) for x in xe))
     if f == "rmchar":
         s = pick(rng, tier, TEXT)
@@ -200,6 +235,84 @@ def g_tt(rng, tier):
     if f == "replace":
         return "tt.replace %s %s %s" % (hx(s), hx(p), hx(rng.choice(["", "X", p, p + p, "longer replacement", s[:8]])))
     return "tt.%s %s %s" % (f, hx(s), hx(p))
+
+
+INT_EDGES = ["2147483647", "2147483648", "2147483649", "2147483646", "214748364", "21474836470", "4294967296", "9223372036854775807",
+             "9223372036854775808", "18446744073709551616", "0", "00", "1", "9", "10", "99999999999", "123456789012345678901234567890"]
+
+
+def digits(rng, n):
+    return "".join(rng.choice("0123456789") for _ in range(n))
+
+
+def numeral(rng, dec=".", sci="e"):
+    """sign? digits (dec digits)? (sci sign? digits)?  with mantissas at the limits of int and exponents of 1..25 digits"""
+    sign = rng.choice(["", "", "-", "-", "+"])
+    r = rng.random()
+    if r < 0.45:
+        mant = rng.choice(INT_EDGES)
+    elif r < 0.6:
+        mant = "0" * rng.choice([1, 2, 12])
+    else:
+        mant = digits(rng, rng.choice([1, 1, 2, 3, 9, 10, 11, 19, 20]))
+    if rng.random() < 0.25:
+        mant += dec + digits(rng, rng.choice([0, 1, 3, 20]))
+    out = sign + mant
+    r = rng.random()
+    if r < 0.75:
+        n = rng.choice(list(range(1, 26)) + [1, 1, 2, 11, 12, 18, 19, 20])
+        k = rng.random()
+        if k < 0.3:
+            e = "9" * n
+        elif k < 0.45:
+            e = "0" * (n - 1) + rng.choice("0123456789")          # leading zeros: the value stays small
+        elif k < 0.6:
+            e = "1" + "0" * (n - 1)
+        else:
+            e = rng.choice("123456789") + digits(rng, n - 1)
+        out += sci + rng.choice(["", "", "+", "-"]) + e
+    elif r < 0.8:
+        out += sci + rng.choice(["", "+", "-"])
+    return out
+
+
+def rmsub5_universe():
+    """the 5-argument removeSubstrings: exception strings of length 1..4 with the block character at every
+    offset, texts in which a block opens / closes before, at and after that offset, with and without a tail
+    long enough for the `right < size - 1` test, and texts that contain the exception itself"""
+    ops = []
+    fill = "xyzw"
+    exc = {}
+    for mark in "()":
+        exc[mark] = []
+        for n in range(1, 5):
+            for k in range(n):
+                exc[mark].append(fill[:k] + mark + fill[k:n - 1])
+    texts = []
+    for n in range(0, 4):
+        for t in itertools.product("(x)", repeat=n):
+            texts.append("".join(t))
+    def line(s, xb, xe):
+        return "tt.rmsub5 %s %s %s %d %s%d %s" % (hx(s), hx("("), hx(")"), len(xb), "".join(hx(x) + " " for x in xb), len(xe), " ".join(hx(x) for x in xe))
+    for x in exc[")"]:
+        for t in texts:
+            for tail in ("", "bcdefgh"):
+                if "(" in t and ")" in t:
+                    ops.append(line(t + tail, [], [x]))
+        for t in ("(" + x, "(a" + x + "b", "((" + x + ")", x + "(" + x):
+            ops.append(line(t, [], [x])); ops.append(line(t + "bcdefgh", [], [x]))
+    for x in exc["("]:
+        for t in texts:
+            for tail in ("", "bcdefgh"):
+                if "(" in t:
+                    ops.append(line(t + tail, [x], []))
+        for t in (x + ")", "a" + x + "b)", x + x + "))", "(" + x + ")"):
+            ops.append(line(t, [x], [])); ops.append(line(t + "bcdefgh", [x], []))
+    for xb in exc["("][::2]:
+        for xe in exc[")"][1::2]:
+            for t in ("(x)", "x(x)x", xb + "x" + xe, "(" + xb + xe + ")", "()" + xe + xb + "()"):
+                ops.append(line(t + "bcdefgh", [xb, "no"], ["no", xe]))
+    return ops
 
 
 def script(rng, gets=True):
@@ -253,7 +366,8 @@ def g_glob(rng, tier):
 def g_at(rng, tier):
     k = rng.randrange(3)
     if k == 0:
-        b, e = rng.choice([("#", "\n"), ("//", "\n"), ("/*", "*/")])
+        b, e = rng.choice([("#", "\n"), ("//", "\n"), ("/*", "*/")] * 3 + [("#", "#"), ("", "\n"), ("#", ""), ("", ""), ("/*", "/"), ("/", "/*"), ("ab", "a"), ("a", "b"),
+                           ("//", "/*"), ("*/", "/*"), ("\n", "\n"), ("aa", "a"), ("ab", "ba"), ("\x00", "\xff")])
         return "at.rmc %s %s %s" % (hx(pick(rng, tier, COMMENTS, ["#", "//", "/*", "*/", "\n", "/", "*"])), hx(b), hx(e))
     if k == 1:
         n = rng.choice([0, 1, 1, 2, 3, 4, 6, 10])
@@ -280,7 +394,7 @@ def g_at(rng, tier):
         if (c, b, e) != ("$", "(", ")"):
             vv = vv.replace("$", c).replace("(", b).replace(")", e) if rng.random() < 0.8 else vv
         m[kk] = vv
-    return "at.vars %s %s %s %d%s" % (hx(c), hx(b), hx(e), len(m), "".join(" %s %s" % (hx(a), hx(v)) for a, v in sorted(m.items())))
+    return "%s %s %s %s %d%s" % (rng.choice(["at.vars", "at.vars", "at.varsE"]), hx(c), hx(b), hx(e), len(m), "".join(" %s %s" % (hx(a), hx(v)) for a, v in sorted(m.items())))
 
 
 def g_ft(rng, tier):
@@ -302,6 +416,19 @@ def small_numbers(s):
     """keep numerals short: a count / range / step in the text is not an input *length*"""
     import re
     return re.sub(r"[0-9]{4,}", lambda m: m.group(0)[:3], s)
+
+
+def dd_numbers(s):
+    """numerals of a distribution description: at most 3 digits in a row (a class count `n=…` allocates and
+    computes in its value) and, with a positive exponent, one mantissa digit and an exponent of at most 2: the
+    cost of the discretisations grows with the magnitude of the shape parameters too (`Gamma(n=999,alpha=999e9)`
+    takes minutes) — that is the numeric kernels' business, not the reader's"""
+    import re
+    s = small_numbers(s)
+    def fix(m):
+        ip, frac, e = m.group(1), m.group(2) or "", m.group(3)
+        return ip[:1] + frac + m.group(0)[len(ip) + len(frac)] + str(min(int(e), 2))
+    return re.sub(r"([0-9]+)(\.[0-9]*)?[eE]\+?([0-9]+)", fix, s)
 
 
 def rand_table(rng, sep):
@@ -335,20 +462,306 @@ def g_dt(rng, tier):
     return "dt.read %s %s %d %d" % (hx(txt), hx(sep), rng.randint(0, 1), rng.choice([-1, -1, -1, 0, 1, 2, 5]))
 
 
-def g_unmodelled(rng, tier):
-    k = rng.randrange(1, 5)
-    if k == 1:
-        return "dd.read %s %d" % (hx(small_numbers(pick(rng, tier, DISTS, ["(", ")", ",", "=", "n=2", "dist=", "probas=", "values="]))), rng.randint(0, 1))
-    if k == 2:
+# ------------------------------------------------------------------ the readers (grammar-complete from RD)
+NUMV = ["0", "1", "2", "0.5", "0.25", "-1", "1e-3", "1.5", "10", "+3", "0.1", "100", "1e2", ".5", "5."]
+BADV = ["", " ", "x", "inf", "-inf", "nan", "1e400", "1e-400", "--1", "1,5", "1e", "e", ".", "-", "1 2", "0x10", "\x00", "(", ")", "()", "=", "2147483648",
+        "-2147483649", "1e99999999999", "9" * 30]
+BLANKS = ["", "", "", " ", "  ", "\t", " \t "]
+
+
+def pad(rng, x):
+    return rng.choice(BLANKS) + x + rng.choice(BLANKS)
+
+
+def num_list(rng, n=None, probas=False):
+    """`(v1,v2,...)` with the variations a list argument meets: blanks, empty and blank-only items, missing parentheses, non-numbers"""
+    n = rng.choice([1, 2, 2, 3, 4]) if n is None else n
+    if probas:
+        items = {1: ["1"], 2: ["0.5", "0.5"], 3: ["0.2", "0.3", "0.5"], 4: ["0.25"] * 4}.get(n, ["0.1"] * n)
+    else:
+        items = [str(i + 1) if rng.random() < 0.7 else rng.choice(NUMV) for i in range(n)]
+    return wrap_list(rng, items)
+
+
+def wrap_list(rng, items):
+    r = rng.random()
+    if r < 0.25:
+        items = [pad(rng, x) for x in items]
+    if rng.random() < 0.2 and items:
+        k = rng.randrange(len(items) + 1)
+        items = items[:k] + [rng.choice(["", " ", "  ", "\t", "x", rng.choice(BADV)])] + items[k:]
+    body = ",".join(items)
+    r = rng.random()
+    if r < 0.82: return "(" + body + ")"
+    if r < 0.86: return body
+    if r < 0.89: return "(" + body
+    if r < 0.92: return body + ")"
+    if r < 0.94: return "((" + body + "))"
+    if r < 0.96: return "[" + body + "]"
+    if r < 0.98: return ""
+    return "("
+
+
+def range_item(rng, k):
+    o, sc, c = "[", ";", "]"
+    r = rng.random()
+    if r < 0.6:
+        return "V%d%s%s%s%s%s" % (k, o, rng.choice(NUMV), sc, rng.choice(NUMV), c)
+    parts = ["V", rng.choice([str(k), "", "0", "99", "-1", "x", "1e1", "4294967296", "2147483647"]), o, rng.choice(NUMV + BADV[:6]), sc, rng.choice(NUMV + BADV[:6]), c]
+    for _ in range(rng.choice([1, 1, 2])):
+        j = rng.randrange(len(parts))
+        parts[j] = rng.choice(["", "", parts[j] * 2, " ", rng.choice(RD["dist_item_chars"]), "x"])
+    return "".join(parts)
+
+
+def range_list(rng, n):
+    return wrap_list(rng, [range_item(rng, k + 1) for k in range(rng.choice([1, n, n, max(1, n - 1)]))])
+
+
+def dist_value(rng, key, depth, n_items):
+    """a value for the argument `key`; what the name suggests most of the time, anything otherwise
+    (an argument name the table below does not know gets every kind of value)"""
+    kind = {"n": "count", "values": "nums", "probas": "probas", "ranges": "ranges", "dist": "dist", "median": "flag", "ParamOffset": "flag"}.get(key)
+    if key in RD["dist_numbered"] or any(key.startswith(f) and key[len(f):].isdigit() for f in RD["dist_numbered"]):
+        kind = "dist"
+    if kind is None:
+        kind = "num" if key in RD["dist_all_args"] else rng.choice(["num", "nums", "ranges", "dist", "count", "flag"])
+    if rng.random() < 0.06:
+        kind = rng.choice(["num", "nums", "ranges", "dist", "count", "bad"])
+    if kind == "count":
+        return rng.choice(["1", "2", "3", "4", "4", "5", "10", "0", "-1", "x", "", "1e1", "2.0", "007", "999", " 3", "3 ", "+2", "1e0", "0e5", "2147483648", "1e99999999999"])
+    if kind == "nums":
+        return num_list(rng, n_items)
+    if kind == "probas":
+        return num_list(rng, n_items if rng.random() < 0.85 else None, probas=True)
+    if kind == "ranges":
+        return range_list(rng, n_items)
+    if kind == "dist":
+        return dist_desc(rng, depth + 1) if depth < 2 else rng.choice(["Constant(value=1)", "Gamma(n=2)", ""])
+    if kind == "flag":
+        return rng.choice(["1", "true", "", "0", "yes"])
+    if kind == "bad":
+        return rng.choice(BADV)
+    return rng.choice(NUMV) if rng.random() < 0.85 else rng.choice(BADV)
+
+
+def dist_desc(rng, depth=0):
+    """Name(arg=value,...) over the names and arguments found in the reader's source"""
+    name = rng.choice(RD["dist_names"] + RD["dist_names"] + ["Unknown", "", "gamma", "Simple "])
+    if depth == 0 and rng.random() < 0.25:
+        name = "Simple"
+    own = list(RD["dist_args"].get(name, []))
+    args = []
+    n_items = rng.choice([1, 2, 2, 3, 4])
+    if "n" in RD["dist_all_args"] and "n" not in own and name not in ("Simple", "Constant", "Invariant", "InvariantMixed", "Mixture"):
+        own = ["n"] + own
+    optional = {"ranges": 0.6, "median": 0.3, "ParamOffset": 0.3, "offset": 0.4}
+    for k in own:
+        if rng.random() < optional.get(k, 0.9):
+            args.append((k, dist_value(rng, k, depth, n_items)))
+    for fam in RD["dist_numbered"]:
+        if name == "Mixture" or rng.random() < 0.03:
+            m = n_items if rng.random() < 0.85 else rng.choice([0, 1, 5])
+            for i in range(1, m + 1):
+                if rng.random() < 0.95:
+                    args.append(("%s%d" % (fam, i), dist_value(rng, fam, depth, n_items)))
+    for k in RD["dist_all_args"]:
+        if rng.random() < 0.04:
+            args.append((k, dist_value(rng, k, depth, n_items)))
+    if rng.random() < 0.05:
+        args.append((rng.choice(["foo", "N", "", " n", "values "]), rng.choice(NUMV)))
+    if rng.random() < 0.3:
+        rng.shuffle(args)
+    if rng.random() < 0.05 and args:
+        args.append(rng.choice(args))                      # an argument given twice
+    sep = "," if rng.random() < 0.8 else rng.choice([", ", " ,", " , "])
+    eq = "=" if rng.random() < 0.85 else rng.choice([" = ", "= ", " ="])
+    body = sep.join(k + eq + v for k, v in args)
+    r = rng.random()
+    if r < 0.9: return name + "(" + body + ")"
+    if r < 0.93: return name + " (" + body + ") "
+    if r < 0.95: return name + "(" + body
+    if r < 0.97: return name
+    return name + "(" + body + "))"
+
+
+def g_dd(rng, tier):
+    r = rng.random()
+    if r < 0.7:
+        d = dist_desc(rng)
+        if rng.random() < 0.25:
+            d = mutate(rng, d, READER_DICT, 400, n=rng.choice([1, 1, 2]))
+    else:
+        d = pick(rng, tier, DISTS, READER_DICT)
+    return "dd.read %s %d" % (hx(dd_numbers(d)), rng.choice([0, 1, 1, 3, 2]))      # bit 0: parseArguments, bit 1: verbose
+
+
+VEC_NUM = {"from": ["0", "0", "1", "-1", "0.5", "10", "-0.5", "1e-3", "1e16", "1e18", "-1e18", "1e300", "x", ""],
+           "to": ["1", "2", "10", "1", "5", "0", "-1", "100", "1e16", "1e18", "1e300", "10000000000000100", "x", ""],
+           "step": ["0.1", "0.5", "1", "0.25", "2", "0.01", "0", "-1", "1e-30", "1e-3", "1e300", "x", "", "1e-320"],
+           "size": ["5", "2", "1", "3", "10", "0", "-3", "x", "", "1e2", "2147483647", "-2147483648", "2147483648", "10000000", "10000001", "1e7", "1e9", "999999999999", "2.5"]}
+
+
+def vec_desc(rng):
+    keys = list(RD["vec_keys"])
+    chosen = []
+    for k in keys:
+        p = {"from": 0.95, "to": 0.95, "step": 0.5, "size": 0.5, "scale": 0.3}.get(k, 0.5)
+        if rng.random() < p:
+            chosen.append(k)
+    if rng.random() < 0.05:
+        chosen.append(rng.choice(["foo", "", "From", "step "]))
+    args = []
+    extreme = rng.random() < 0.12          # extremes are refused at once or after 10^7 rounds (0.3 s): kept rare
+    for k in chosen:
+        if k == "scale":
+            v = rng.choice(RD["vec_scales"] + RD["vec_scales"] + ["foo", "", "LOG", "10"])
+        else:
+            pool = VEC_NUM.get(k, NUMV + BADV)
+            v = rng.choice(pool) if extreme else rng.choice(pool[:6])
+        args.append((k, v))
+    if rng.random() < 0.2:
+        rng.shuffle(args)
+    body = rng.choice([",", ",", ",", ", "]).join(k + rng.choice(["=", "=", "=", " = "]) + v for k, v in args)
+    pre = rng.choice(RD["vec_prefixes"]) if rng.random() < 0.93 else rng.choice(["seq", "seq (", "Seq(", "se", ""])
+    return pre + body + (")" if rng.random() < 0.92 else rng.choice(["", "))", " )", ") "]))
+
+
+def g_vec(rng, tier):
+    r = rng.random()
+    if r < 0.55:
+        v = vec_desc(rng)
+        if rng.random() < 0.2:
+            v = mutate(rng, v, READER_DICT, 300, n=1)
+            v = small_numbers(v)
+    elif r < 0.75:
+        v = ",".join(pad(rng, rng.choice(NUMV + BADV[:8])) for _ in range(rng.choice([0, 1, 2, 3, 5])))
+    else:
+        v = small_numbers(pick(rng, tier, VECS, READER_DICT))
         import re
-        v = small_numbers(pick(rng, tier, VECS, ["seq(", "from=", "to=", "step=", "size=", "scale=", ",", "="]))
-        # no exponent / tiny step in a sequence: "step=1e-30" or "step=0.00001" describes an astronomically long vector, not a long input
-        v = re.sub(r"(?<=[0-9.])[eE](?=[-+0-9])", "", v)
+        v = re.sub(r"(?<=[0-9.])[eE](?=[-+0-9])", "", v)      # mutated free text: no accidental 1e-30 steps (each costs 10^7 rounds)
         v = re.sub(r"\.0+", ".", v)
-        return "nc.vec %s" % hx(v)
-    if k == 3:
-        return "nc.seq %s %s %s" % (hx(small_numbers(pick(rng, tier, SEQS, ["-", ","]))), hx(rng.choice([",", ",", ";", " ", "-"])), hx(rng.choice(["-", "-", ":", ",", ".."])))
-    return "ct.parse %s" % hx(pick(rng, tier, FORMULAS, ["+", "-", "*", "/", "(", ")", "x", "1"]))
+    return "nc.vec %s" % hx(v)
+
+
+SEQ_INT = ["1", "5", "7", "12", "0", "3", "20", "-1", "-5", "100", "2147483647", "2147483646", "-2147483648", "-2147483647", "2147483648", "1e1", "1e3", "x", "",
+           "1e99999999999", "007", "+4"]
+
+
+def g_seq(rng, tier):
+    delim = rng.choice([",", ",", ",", ";", " ", ", "])
+    sd = rng.choice(["-", "-", "-", ":", "..", "--"])
+    r = rng.random()
+    if r < 0.7:
+        items = []
+        for _ in range(rng.choice([0, 1, 1, 2, 3, 5])):
+            pool = SEQ_INT if rng.random() < 0.3 else SEQ_INT[:10]
+            a = rng.choice(pool)
+            k = rng.random()
+            if k < 0.45:
+                items.append(a)
+            elif k < 0.9:
+                b = rng.choice(pool)
+                items.append(a + sd + b)
+            else:
+                items.append(a + sd + rng.choice(pool) + sd + rng.choice(pool))
+        s = delim.join(items)
+        if rng.random() < 0.15:
+            s = mutate(rng, s, [sd, delim, "-", ","], 200, n=1)
+            s = small_numbers(s)
+    else:
+        s = small_numbers(pick(rng, tier, SEQS, ["-", ",", sd, delim]))
+    return "nc.seq %s %s %s" % (hx(s), hx(delim), hx(sd))
+
+
+CT_NAMES = ["a", "b", "x", "y", "f", "g", "h"]           # the functions the harness registers (f, g, h: plain / first / second order)
+
+
+def formula(rng, depth=0):
+    ops = [c for c in RD["formula_chars"] if c not in "()"] or ["+"]
+    def factor(d):
+        r = rng.random()
+        if d > 3 or r < 0.35:
+            return rng.choice(CT_NAMES + ["1", "2.5", "1e-3", "0", "10", "z", "1e", ".", ""])
+        if r < 0.55:
+            return "(" + expr(d + 1) + ")"
+        if r < 0.7:
+            return "-" + factor(d + 1)
+        if r < 0.9:
+            return rng.choice(RD["formula_funcs"] + RD["formula_funcs"] + ["sin", "f", ""]) + "(" + expr(d + 1) + ")"
+        return "((" + expr(d + 1) + "))"
+    def expr(d):
+        out = factor(d)
+        for _ in range(rng.choice([0, 0, 1, 1, 2, 3])):
+            out += rng.choice(ops) + factor(d)
+        return out
+    return expr(depth)
+
+
+def g_ct(rng, tier):
+    r = rng.random()
+    if r < 0.6:
+        f = formula(rng)
+        if rng.random() < 0.3:
+            f = mutate(rng, f, RD["formula_chars"] + [x + "(" for x in RD["formula_funcs"]] + [" "], 300, n=rng.choice([1, 1, 2]))
+        if rng.random() < 0.2:
+            f = " ".join(f)
+    elif r < 0.7:
+        n = rng.choice([10, 50, 200, 800, 4000] if tier == "thorough" else [10, 50, 200])
+        f = rng.choice(["(" * (n // 2) + "a" + ")" * (n // 2), "-" * n + "a", "+".join(["a"] * (n // 2)), "*".join(["b"] * (n // 2)), "exp(" * (n // 5) + "1" + ")" * (n // 5),
+                        "(" * n, ")" * n, "a" + "+(" * (n // 2)])[:4096]          # nesting as deep as 4 KiB allow
+    else:
+        f = pick(rng, tier, FORMULAS, RD["formula_chars"] + ["x", "1", "exp(", "log("])
+    return "ct.parse %s" % hx(f)
+
+
+def readers_universe():
+    """small exhaustive universes for the list grammars of the readers"""
+    ops = []
+    head = "Simple(values=(1,2),probas=(0.5,0.5),ranges=("
+    toks = ["V1[0;2]", "V2[1;3]", ",", " ", "V", "[", ";", "]", "1"]
+    for n in range(0, 4):
+        for t in itertools.product(toks, repeat=n):
+            if n == 3 and t.count(",") == 0 and " " not in t:
+                continue
+            ops.append("dd.read %s 1" % hx(head + "".join(t) + "))"))
+    for arg in ("values", "probas"):
+        for n in range(0, 5):
+            for t in itertools.product("1, .", repeat=n):
+                other = "probas=(1)" if arg == "values" else "values=(1)"
+                ops.append("dd.read %s 0" % hx("Simple(%s=(%s),%s)" % (arg, "".join(t), other)))
+    for n in range(0, 4):
+        for t in itertools.product(["1", "0.5", ",", " ", "x"], repeat=n):
+            ops.append("dd.read %s 1" % hx("Mixture(probas=(%s),dist1=Constant(value=1),dist2=Constant(value=2))" % "".join(t)))
+    # list arguments of one character (listContent_ needs two), the other arguments being valid
+    for v in ("x", "1", " ", "[", "V"):
+        ops.append("dd.read %s 1" % hx("Simple(values=(1,2),probas=(0.5,0.5),ranges=%s)" % v))
+        ops.append("dd.read %s 1" % hx("Simple(values=%s,probas=(1))" % v))
+        ops.append("dd.read %s 1" % hx("Simple(values=(1),probas=%s)" % v))
+        ops.append("dd.read %s 1" % hx("Mixture(probas=%s,dist1=Constant(value=1))" % v))
+    # every argument name of the reader once with every distribution name, alone and with n
+    for d in RD["dist_names"]:
+        for k in RD["dist_all_args"] + [f + "1" for f in RD["dist_numbered"]]:
+            for v in ("1", "", "(1)", "Constant(value=1)"):
+                ops.append("dd.read %s 1" % hx("%s(%s=%s)" % (d, k, v)))
+                ops.append("dd.read %s 1" % hx("%s(n=2,%s=%s)" % (d, k, v)))
+    # sequences and vectors at the limits (a handful: each one that reaches the cap costs 10^7 rounds)
+    for a, b in (("2147483646", "2147483647"), ("-2147483648", "-2147483647"), ("2147483647", "2147483646"), ("-2147483648", "2147483647"),
+                 ("2147483647", "-2147483648"), ("0", "2147483647"), ("-2147483648", "5"), ("0", "9999999"), ("0", "10000000"), ("1", "10000000"), ("5", "5")):
+        ops.append("nc.seq %s %s %s" % (hx(a + ":" + b), hx(","), hx(":")))
+    ops.append("nc.seq %s %s %s" % (hx("0:9999998,1,2"), hx(","), hx(":")))
+    ops.append("nc.seq %s %s %s" % (hx("0:9999998,1:2"), hx(","), hx(":")))
+    for v in ("seq(from=0,to=1e18,step=1)", "seq(from=0,to=1,size=2147483647)", "seq(from=0,to=1,size=10000001)", "seq(from=0,to=1,size=10000000)",
+              "seq(from=1e16,to=10000000000000100,step=1)", "seq(from=0,to=1,step=1e-30)", "seq(from=0,to=9999999,step=1)", "seq(from=0,to=10000000,step=1)",
+              "seq(from=0,to=1,size=-2147483648)", "seq(from=1e300,to=-1e300,size=3)", "seq(from=-1e300,to=1e300,size=3,scale=exp)"):
+        ops.append("nc.vec %s" % hx(v))
+    for sc in RD["vec_scales"] + ["foo"]:
+        ops.append("nc.vec %s" % hx("seq(from=1,to=3,step=1,scale=%s)" % sc))
+        ops.append("nc.vec %s" % hx("seq(from=1,to=3,size=3,scale=%s)" % sc))
+    for ks in itertools.product([0, 1], repeat=len(RD["vec_keys"])):
+        args = [k + "=" + {"scale": RD["vec_scales"][0]}.get(k, "2") for k, on in zip(RD["vec_keys"], ks) if on]
+        ops.append("nc.vec %s" % hx("seq(" + ",".join(args) + ")"))
+    return ops
 
 
 def exhaustive(tier):
@@ -384,6 +797,12 @@ def exhaustive(tier):
             s = "".join(t)
             for b, e in (("#", "\n"), ("//", "\n"), ("/*", "*/")):
                 ops.append("at.rmc %s %s %s" % (hx(s), hx(b), hx(e)))
+    # every pair of marks over a small alphabet (refused when one starts with the other), on a few texts
+    marks = ["".join(t) for n in range(0, 3) for t in itertools.product("a/*", repeat=n)]
+    for b in marks:
+        for e in marks:
+            for s in ("", "a", "a/*a*/a", "/*/", "*//*a", "aa/a*a/*"):
+                ops.append("at.rmc %s %s %s" % (hx(s), hx(b), hx(e)))
     for n in range(3):
         for t in itertools.product(["a=b", "\\", "", "c\\", "#x"], repeat=n):
             ops.append("at.map %s %d%s" % (hx("="), len(t), "".join(" " + hx(l) for l in t)))
@@ -395,6 +814,17 @@ def exhaustive(tier):
             s = "".join(t)
             if n <= L or s.count("\n") >= 2:
                 ops.append("dt.read %s %s %d %d" % (hx(s), hx(","), n % 2, (n % 3) - 1))
+    ops += rmsub5_universe()
+    ops += readers_universe()
+    for m in INT_EDGES + ["0", "1", "5", "000"]:
+        for sg in ("", "-"):
+            for e in ("", "e0", "e1", "e+1", "e9", "e10", "e11", "e12", "e010", "e0000000000000000000000001", "e99999999999", "e9999999999999999999",
+                      "e99999999999999999999", "e" + "9" * 25, "e-1", "e+", "e"):
+                ops.append("tt.num %s %s %s" % (hx(sg + m + e), hx("."), hx("e")))
+    for t in itertools.product(["a", "=", ",", "a=1"], repeat=5):
+        if t.count("=") >= 2 and t.count(",") >= 1:
+            ops.append("kv.multi %s %s %d" % (hx("".join(t)), hx(","), len(t[0]) % 2))
+            ops.append("kv.change %s %s %d 1 %s %s" % (hx("f(" + "".join(t) + ")"), hx(","), len(t[1]) % 2, hx("a"), hx("Z")))
     for n in range(0, 9):
         for k in (0, 1, 2, 3, 4, 5, 8, 9):
             ops.append("tt.split %s %d" % (hx("abcdefgh"[:n]), k))
@@ -435,10 +865,12 @@ def fuzz_cases(seed, tier):
 def generate(seed, tier):
     rng = random.Random(seed)
     n = 50000 if tier == "thorough" else 20000
-    fams = [(g_tt, 5), (g_st, 4), (g_nst, 3), (g_kv, 3), (g_glob, 1), (g_at, 3), (g_ft, 1), (g_ic, 1), (g_dt, 2), (g_unmodelled, 3)]
+    fams = [(g_tt, 5), (g_st, 4), (g_nst, 3), (g_kv, 3), (g_glob, 1), (g_at, 3), (g_ft, 1), (g_ic, 1), (g_dt, 2), (g_dd, 2), (g_vec, 1), (g_seq, 1), (g_ct, 1)]
     tot = sum(w for _, w in fams)
     cases = []
-    cases += chunk("exh", exhaustive(tier), 250)
+    # the extra batches of check.py's directed search (seed * 1000 + k) do not repeat the fixed universes
+    if seed < 1000:
+        cases += chunk("exh", exhaustive(tier), 250)
     for f, w in fams:
         ops = [f(rng, tier) for _ in range(n * w // tot)]
         # at.vars can hit the known non-termination finding: one op per case (a case is judged up to its first issue)
@@ -455,8 +887,15 @@ def generate(seed, tier):
 
 
 def compare(op_line, impl, model):
-    if op_line.split()[0] in UNMODELLED:
+    o = op_line.split()[0]
+    if o in UNMODELLED:
         return True
+    if o == "dd.read":
+        # the text stage of the reader is modelled: when the model says it raises, the call must raise the
+        # library's exception; when it passes (`?…`) the unmodelled constructors decide (value or exception)
+        if model.startswith("?"):
+            return True
+        return impl.split()[:1] == model.split()[:1]
     return " ".join(impl.split()) == " ".join(model.split())
 
 
@@ -479,4 +918,19 @@ def coverage_extra(cases, answers):
                     break
     out = {"outcome_classes_by_family": cls, "longest_argument_length_histogram": lens}
     out.update(FUZZ_INFO)
+    out["reader_dictionary"] = RD
+    # guard coverage of every routine on the real C++ by the scripts that have just been run
+    # (tools/c16_coverage.py: clang source-based coverage; evidence only, never the verdict)
+    if os.environ.get("VERIF_C16_COV", "1") != "0" and len(cases) >= 50:
+        try:
+            cov = _load_tool("c16_coverage")
+            res = cov.analyse(cov.run(cases))
+            out["guard_coverage"] = {"summary": cov.summary(res), "per_routine": {
+                label: {"status": v["status"], "calls": v["calls"], "guards": v["guards"], "two_sided": v["two_sided"],
+                        "conditions_outcomes_taken": "%d/%d" % (v["outcomes_taken"], v["branch_outcomes"]),
+                        "one_sided_open": ["%s [%s]" % (m["at"], m["missing"]) for m in v["one_sided"]],
+                        "one_sided_unreachable": [m["at"] for m in v["one_sided_unreachable"]]}
+                for label, v in res.items()}}
+        except Exception as e:
+            out["guard_coverage"] = {"status": "not measured: %r" % (e,)}
     return out
